@@ -1,4 +1,4 @@
-import BeyondVerif.Lemmas.Heap
+import BeyondVerif.Lemmas.HeapCopy
 /-!
 # C15 — state vectors have value semantics and change atomically
 
@@ -149,5 +149,150 @@ theorem asSV_receiver_unchanged (h : Heap) (a : Nat) : Pres h (asSV h a).1 := by
     · split
       · exact Pres.refl h
       · exact ((alloc_pres h _).alloc _).alloc _
+
+
+/-- reading back a freshly allocated StateVector -/
+theorem getSV_alloc3 (h : Heap) (v : Val) (items : Items) (o : Bool) (f : String) (fr : Fr)
+    (hf : formOf items = some f) (hfr : frameOf items = some fr) :
+    getSV (h ++ [.buf v] ++ [.dict items] ++ [.sv o false h.length (h.length + 1)]) (h.length + 2)
+      = some ⟨o, false, h.length, h.length + 1, v, items, f, fr⟩ := by
+  unfold getSV
+  simp [hf, hfr]
+
+/-- values and metadata are preserved by StateVector → Orbit → StateVector: the object that comes back has
+the same coordinates and exactly the same `_data` entries (same keys, same order, same values) -/
+theorem as_orbit_as_statevector_id (h : Heap) (a p : Nat) (s : SV) (hs : getSV h a = some s)
+    (hown : s.owned = false) (hp : lookup "propagator" s.items = none) :
+    ∃ h1 n h2 m s2, asOrbit h a p = (h1, .ok n) ∧ asSV h1 n = (h2, .ok m) ∧ getSV h2 m = some s2 ∧
+      s2.val = s.val ∧ s2.items = s.items ∧ s2.form = s.form ∧ s2.frame = s.frame ∧ s2.orbit = false ∧
+      s2.buf ≠ s.buf ∧ s2.data ≠ s.data ∧ Pres h h2 := by
+  have hf : formOf s.items = some s.form ∧ frameOf s.items = some s.frame := by
+    unfold getSV at hs
+    split at hs
+    · split at hs
+      · split at hs
+        · rename_i f fr hf hfr; simp at hs; subst hs; exact ⟨hf, hfr⟩
+        · simp at hs
+      · simp at hs
+    · simp at hs
+  have hbuf : s.buf < h.length ∧ s.data < h.length := by
+    unfold getSV at hs
+    split at hs
+    · rename_i o own b d hc
+      split at hs
+      · rename_i v items hb hd
+        split at hs
+        · simp at hs; subst hs
+          exact ⟨(List.getElem?_eq_some_iff.mp hb).1, (List.getElem?_eq_some_iff.mp hd).1⟩
+        · simp at hs
+      · simp at hs
+    · simp at hs
+  have hf1 : formOf (insert "propagator" (.addr p) s.items) = some s.form := by
+    unfold formOf; rw [lookup_insert_ne _ _ _ _ (by decide)]; exact hf.1
+  have hfr1 : frameOf (insert "propagator" (.addr p) s.items) = some s.frame := by
+    unfold frameOf; rw [lookup_insert_ne _ _ _ _ (by decide)]; exact hf.2
+  have g1 := getSV_alloc3 h s.val (insert "propagator" (.addr p) s.items) true s.form s.frame hf1 hfr1
+  have e1 : asOrbit h a p = (h ++ [.buf s.val] ++ [.dict (insert "propagator" (.addr p) s.items)] ++ [.sv true false h.length (h.length + 1)], .ok (h.length + 2)) := by
+    unfold asOrbit; rw [hs]; simp [hown, alloc]
+  let h1 := h ++ [.buf s.val] ++ [.dict (insert "propagator" (.addr p) s.items)] ++ [.sv true false h.length (h.length + 1)]
+  have hl1 : h1.length = h.length + 3 := by simp [h1]
+  have hitems : erase "propagator" (insert "propagator" (.addr p) s.items) = s.items := erase_insert _ _ _ hp
+  have e2 : asSV h1 (h.length + 2) = (h1 ++ [.buf s.val] ++ [.dict s.items] ++ [.sv false false h1.length (h1.length + 1)], .ok (h1.length + 2)) := by
+    unfold asSV; rw [g1]; simp [alloc, hitems]
+  have g2 := getSV_alloc3 h1 s.val s.items false s.form s.frame hf.1 hf.2
+  refine ⟨h1, h.length + 2, _, h1.length + 2, _, e1, e2, g2, rfl, rfl, rfl, rfl, rfl, ?_, ?_, ?_⟩
+  · simp only; omega
+  · simp only; omega
+  · have q1 : Pres h h1 := ((alloc_pres h _).alloc _).alloc _
+    have q2 : Pres h1 (h1 ++ [.buf s.val] ++ [.dict s.items] ++ [.sv false false h1.length (h1.length + 1)]) :=
+      ((alloc_pres h1 _).alloc _).alloc _
+    exact q1.trans q2
+
+/-- `as_orbit` hands every metadata value over *as it is*: the new Orbit's `_data` holds, under every key but
+`propagator`, the very same reference as the receiver's — metadata is preserved, and every mutable value
+(covariance, maneuver list, containers) is thereby shared (see Witness/C15.lean for the consequence) -/
+theorem asOrbit_same_references (h : Heap) (a p : Nat) (s : SV) (hs : getSV h a = some s) (hown : s.owned = false) :
+    ∃ h1 n s1, asOrbit h a p = (h1, .ok n) ∧ getSV h1 n = some s1 ∧ s1.val = s.val ∧ s1.buf ≠ s.buf ∧ s1.data ≠ s.data ∧
+      ∀ k, k ≠ "propagator" → lookup k s1.items = lookup k s.items := by
+  have hf : formOf s.items = some s.form ∧ frameOf s.items = some s.frame := by
+    unfold getSV at hs
+    split at hs
+    · split at hs
+      · split at hs
+        · rename_i f fr hf hfr; simp at hs; subst hs; exact ⟨hf, hfr⟩
+        · simp at hs
+      · simp at hs
+    · simp at hs
+  have hbuf : s.buf < h.length ∧ s.data < h.length := by
+    unfold getSV at hs
+    split at hs
+    · rename_i o own b d hc
+      split at hs
+      · rename_i v items hb hd
+        split at hs
+        · simp at hs; subst hs
+          exact ⟨(List.getElem?_eq_some_iff.mp hb).1, (List.getElem?_eq_some_iff.mp hd).1⟩
+        · simp at hs
+      · simp at hs
+    · simp at hs
+  have hf1 : formOf (insert "propagator" (.addr p) s.items) = some s.form := by
+    unfold formOf; rw [lookup_insert_ne _ _ _ _ (by decide)]; exact hf.1
+  have hfr1 : frameOf (insert "propagator" (.addr p) s.items) = some s.frame := by
+    unfold frameOf; rw [lookup_insert_ne _ _ _ _ (by decide)]; exact hf.2
+  have g1 := getSV_alloc3 h s.val (insert "propagator" (.addr p) s.items) true s.form s.frame hf1 hfr1
+  have e1 : asOrbit h a p = (h ++ [.buf s.val] ++ [.dict (insert "propagator" (.addr p) s.items)] ++ [.sv true false h.length (h.length + 1)], .ok (h.length + 2)) := by
+    unfold asOrbit; rw [hs]; simp [hown, alloc]
+  refine ⟨_, _, _, e1, g1, rfl, ?_, ?_, fun k hk => lookup_insert_ne _ _ _ _ hk⟩
+  · simp only; omega
+  · simp only; omega
+
+/-! ## copies -/
+
+/-- `copy()` writes nothing: every cell of the old heap — the receiver and all it can reach — is unchanged -/
+theorem copy_receiver_unchanged (h : Heap) (a : Nat) : Pres h (copySV h a).1 :=
+  copySVWith_pres (copyRef_ok _) h a
+
+/- Full statement (clause "a copy shares no mutable data with the original"):
+     no mutable cell reachable from the copy is reachable from the original.
+   It is FALSE of the current code (Witness/C15.lean: maneuver objects and nested containers stay shared).
+   Proved at the depth the code copies: -/
+/-- after `c = sv.copy()`: the object, its coordinate buffer and its `_data` dict are new cells; the values are
+those of the receiver; and every reference stored in the new `_data` is a new cell (list, dict, ndarray,
+covariance, propagator have been copied) — the only old addresses that survive at the first level are
+maneuver objects -/
+theorem copy_separate_depth1 (h h1 : Heap) (a n : Nat) (s' : SV)
+    (hr : copySV h a = (h1, .ok n)) (hg : getSV h1 n = some s') :
+    h.length ≤ n ∧ h.length ≤ s'.buf ∧ h.length ≤ s'.data ∧ s'.buf ≠ s'.data ∧
+    (∃ s, getSV h a = some s ∧ s'.val = s.val ∧ s'.orbit = s.orbit) ∧
+    ∀ k x, (k, Ref.addr x) ∈ s'.items → h.length ≤ x ∨ ∃ t, h[x]? = some (.man t) := by
+  obtain ⟨hb, hd, hn, hne, s, items', h0, hs, hc, hv, hi, ho, _⟩ := copySVWith_getSV (copyRef_ok _) h h1 a n s' hr hg
+  refine ⟨hn, hb, hd, hne, ⟨s, hs, hv, ho⟩, ?_⟩
+  rw [hi]
+  exact copyItems_fresh (copyRef_ok _) h s.items items' h0 hc
+
+/-- `copy(form=…)`: the conversion runs on the new object and writes only its (new) buffer and dict — the
+receiver is unchanged whether the conversion succeeds or fails -/
+theorem copyForm_receiver_unchanged (h : Heap) (a : Nat) (name : String) : Pres h (copyForm h a name).1 := by
+  unfold copyForm
+  have p := copy_receiver_unchanged h a
+  split
+  · rename_i h1 e he; rw [he] at p; exact p
+  · rename_i h1 n he
+    rw [he] at p
+    have q : Pres h (setForm h1 n name).1 := by
+      unfold setForm
+      split
+      · exact p
+      · unfold setFormTo
+        split
+        · exact p
+        · rename_i s' hs'
+          split
+          · exact p
+          · obtain ⟨hb, hd, _⟩ := copySVWith_getSV (copyRef_ok _) h h1 a n s' he hs'
+            exact (p.wr hb _).wr hd _
+    split
+    · rename_i h2 e he2; rw [he2] at q; exact q
+    · rename_i h2 he2; rw [he2] at q; exact q
 
 end BeyondVerif.C15
